@@ -1,19 +1,21 @@
 #!/bin/sh
 # adopt_seed.sh <worktree-id> <seed-name> : verify a sub-agent's change myself and copy it to /verif/seeded/<seed-name>/
+# (never uses git stash: the stash is shared by all worktrees of a repository)
 W=/tmp/sa/$1; D=/verif/seeded/$2
-[ -f $W/patch.diff ] || { echo "no patch"; exit 2; }
 mkdir -p $D
 cd $W || exit 2
-git stash -q
-A=$(PYTHONPATH=$W/src PYTHONDONTWRITEBYTECODE=1 timeout 300 /venv/bin/python $W/demo.py 2>&1 | tail -3 | tr '\n' ' '); AE=$?
-BASE=$(PYTHONPATH=$W/src PYTHONDONTWRITEBYTECODE=1 timeout 400 /venv/bin/python -m pytest -q -p no:cacheprovider --timeout=60 --continue-on-collection-errors 2>&1 | tail -1)
-git stash pop -q
-B=$(PYTHONPATH=$W/src PYTHONDONTWRITEBYTECODE=1 timeout 300 /venv/bin/python $W/demo.py 2>&1 | tail -4 | tr '\n' ' ')
-PYTHONPATH=$W/src PYTHONDONTWRITEBYTECODE=1 timeout 300 /venv/bin/python $W/demo.py >/dev/null 2>&1; BE=$?
-MUT=$(PYTHONPATH=$W/src PYTHONDONTWRITEBYTECODE=1 timeout 400 /venv/bin/python -m pytest -q -p no:cacheprovider --timeout=60 --continue-on-collection-errors 2>&1 | tail -1)
-git diff > $D/patch.diff
+git diff -- src > $D/patch.diff
+[ -s $D/patch.diff ] || { echo "no change in worktree"; exit 2; }
 cp $W/demo.py $D/demo.py
-echo "demo without change: $A"
+run_demo() { PYTHONPATH=$W/src PYTHONDONTWRITEBYTECODE=1 timeout 300 /venv/bin/python $W/demo.py 2>&1 | tail -4 | tr '\n' ' '; }
+run_suite() { PYTHONPATH=$W/src PYTHONDONTWRITEBYTECODE=1 timeout 400 /venv/bin/python -m pytest -q -p no:cacheprovider --timeout=60 --continue-on-collection-errors 2>&1 | tail -1; }
+git apply -R $D/patch.diff || exit 2
+A=$(run_demo); PYTHONPATH=$W/src timeout 300 /venv/bin/python $W/demo.py >/dev/null 2>&1; AE=$?
+BASE=$(run_suite)
+git apply $D/patch.diff || exit 2
+B=$(run_demo); PYTHONPATH=$W/src timeout 300 /venv/bin/python $W/demo.py >/dev/null 2>&1; BE=$?
+MUT=$(run_suite)
+echo "demo without change (exit $AE): $A"
 echo "demo with change (exit $BE): $B"
 echo "suite without: $BASE"
 echo "suite with:    $MUT"
